@@ -1,11 +1,14 @@
 #!/bin/bash
-# run_mutant.sh <patch> <check-id>...: applies a patch to /repo, runs the given quick checks, reverts.
+# run_mutant.sh <patch> <check-id>...: applies a patch to a scratch worktree of /repo (never to
+# /repo itself), runs the given quick checks against it (development overrides VERIF_DEV_REPO /
+# VERIF_DEV_OUT keep /verif/evidence and /verif/replays untouched), removes the worktree.
 PATCH=$1; shift
-cd /repo && git diff --quiet || { echo "repo dirty"; exit 2; }
-git -C /repo apply $PATCH || { echo "apply failed"; exit 2; }
+WT=$(mktemp -d /tmp/mutrepo.XXXXXX); OUT=$(mktemp -d /tmp/mutout.XXXXXX)
+git -C /repo worktree add -q --detach $WT HEAD || exit 2
+git -C $WT apply $PATCH || { echo "apply failed"; git -C /repo worktree remove --force $WT; exit 2; }
 for C in "$@"; do
-  OUT=$(cd /verif && ./check.sh $C quick 2>&1); RC=$?
-  echo "  check $C exit=$RC $(echo "$OUT" | grep -c '^VIOLATION') violation(s): $(echo "$OUT" | grep 'fingerprint' | head -3 | sed 's/^ *//' | cut -c1-160 | tr '\n' '|')"
-  [ $RC -eq 2 ] && echo "$OUT" | tail -5
+  OUTTXT=$(cd /verif && VERIF_DEV_REPO=$WT VERIF_DEV_OUT=$OUT ./check.sh $C quick 2>&1); RC=$?
+  echo "  check $C exit=$RC $(echo "$OUTTXT" | grep -c '^VIOLATION') violation(s): $(echo "$OUTTXT" | grep 'fingerprint' | head -3 | sed 's/^ *//' | cut -c1-160 | tr '\n' '|')"
+  [ $RC -eq 2 ] && echo "$OUTTXT" | tail -5
 done
-git -C /repo checkout -- . ; git -C /repo clean -fdq
+git -C /repo worktree remove --force $WT; rm -rf $OUT
